@@ -426,6 +426,35 @@ func c14CacheLifecycle(c *core.Ctx, r *core.Rand, cwd string) {
 				map[string]any{"registered_path": "isdir.html (a directory)", "expected": wantDir.Brief(), "observed": got.Brief()})
 		}
 	}
+	// a source registered while a file of that name still existed is the one used once the file is gone (disk wins only
+	// while there is a file), and a render that failed INSIDE an included file says nothing about the next include of it
+	gone := filepath.Join(dir, "gone.html")
+	os.WriteFile(gone, []byte("[on disk {{ n }}]"), 0o644)
+	if _, pr := core.ParseCache(e, "[registered while the file existed {{ n }}]{% if fail_inside %}{{ 1 | divided_by: 0 }}{% endif %}", gone, 1); pr.OK() {
+		onDisk := core.RunAt(e, "{% include 'gone.html' %}", filepath.Join(dir, "top.liquid"), 1, b)
+		os.Remove(gone)
+		wantReg := core.Run(e, "[registered while the file existed {{ n }}]", b)
+		bFail := map[string]any{}
+		for k, v := range b {
+			bFail[k] = v
+		}
+		bFail["fail_inside"] = true
+		failed := core.RunAt(e, "x{% include 'gone.html' %}y", filepath.Join(dir, "top.liquid"), 1, bFail)
+		got := core.RunAt(e, "{% include 'gone.html' %}", filepath.Join(dir, "top.liquid"), 1, b)
+		again := core.RunAt(e, "{% for i in (1..2) %}{% include 'gone.html' %}{% endfor %}", filepath.Join(dir, "top.liquid"), 1, b)
+		c.Eval(5)
+		c.Obs("cache_lifecycle_steps", 1)
+		if wantDisk := core.Run(e, "[on disk {{ n }}]", b); !onDisk.Same(wantDisk) {
+			c.Violate("include|cache-lifecycle|disk-does-not-win|"+resClass(onDisk), "while a file exists at the path it is what include renders, not the registered source", map[string]any{"expected": wantDisk.Brief(), "observed": onDisk.Brief()})
+		}
+		if !failed.Failed() {
+			c.Violate("include|cache-lifecycle|failure-inside-not-reported", "an error inside an included template must fail the render", map[string]any{"observed": failed.Brief()})
+		}
+		if !got.Same(wantReg) || !again.OK() || again.Out != wantReg.Out+wantReg.Out {
+			c.Violate("include|cache-lifecycle|registered-source-not-used-after-removal|"+resClass(got), "a source registered with ParseTemplateAndCache is used when no such file exists - also when a file existed at the time of the registration and was removed later, and after a render that failed inside that file",
+				map[string]any{"expected": wantReg.Brief(), "observed": got.Brief(), "observed_in_loop": again.Brief()})
+		}
+	}
 	// a source registered under an unclean spelling of its path is found under the path include computes
 	if _, pr := core.ParseCache(e, "[unclean {{ n }}]", dir+"/./sub/../uncl.html", 1); pr.OK() {
 		wantU := core.Run(e, "[unclean {{ n }}]", b)
